@@ -93,6 +93,11 @@ impl Value {
     pub fn get_attr<'a>(&'a self, attr: &'a str) -> (r: Option<&'a Value>)
         ensures r.is_some() == self.attr_spec(attr@).is_some(), r.is_some() ==> *r.unwrap() == self.attr_spec(attr@)->Some_0
     { unimplemented!() }
+    /// the text of a string value: exactly what `format` writes for it (ValueInner::String arm of Value::format)
+    #[verifier::external_body]
+    pub fn as_str(&self) -> (r: Option<&str>)
+        ensures r is Some ==> r->Some_0.spec_bytes() == self.fmt_spec()
+    { unimplemented!() }
 }
 
 #[verifier::external_body]
